@@ -364,6 +364,9 @@ class World:
                 if isinstance(obj, VOpt):
                     obj = obj.val
                 allowed.add((id(obj), mangle(n.attr, f.cls)))
+                fv = snap.get(id(obj), {}).get(mangle(n.attr, f.cls)) if isinstance(snap.get(id(obj)), dict) else None
+                if isinstance(fv, VBox):
+                    allowed.add((id(fv), None))      # a mutable container held in the field: its content may change too
             elif isinstance(n, ast.Name):
                 b = ex.frame().lookup(n.id)
                 allowed.add((id(b), None))
